@@ -583,11 +583,26 @@ func checkEntry(e entry) {
 			for _, method := range []string{"GET", "POST", "PUT", "DELETE"} {
 				o := judge(method, path)
 				// escaped variants of instance paths (C12 router half): same outcome
-				if method == "GET" && instances[path] && !strings.Contains(path, "%") {
+				if method == "GET" && instances[path] {
 					var pos []int
 					for i := 0; i < len(path); i++ {
+						if path[i] == '%' {
+							i += 2 // an escape that is part of the instance (%2F inside an argument) stays
+							continue
+						}
 						if isUnreserved(path[i]) {
 							pos = append(pos, i)
+						}
+					}
+					// the configured prefix spelled with needless escapes: the remainder keeps its meaning
+					if prefix != "" {
+						for _, ps := range []string{"/%61pi", "/a%70i", "/ap%69", "/%61%70%69"} {
+							evals++
+							nontriv++
+							o2 := serve(srv, method, "http://x"+ps+path, &gotOp, &gotParams)
+							if o2.status != o.status || o2.op != o.op || fmt.Sprint(o2.params) != fmt.Sprint(o.params) || o2.pan != "" {
+								report("C12-escaped-prefix-served-differently", false, ps, method, path, o2, fmt.Sprintf("same as %s%s: status=%d op=%q args=%v", prefix, path, o.status, o.op, o.params))
+							}
 						}
 					}
 					if len(pos) > 4 {
